@@ -164,7 +164,8 @@ type bnSource struct {
 	accepted int
 	loops    int
 	tick     chan struct{}
-	lastTip  int
+	lastTip  int         // tip reported by the most recent backlog call (-1: none)
+	tipByH   map[int]int // free runs: tip reported to the most recent call with that height
 	onAccept func(k int) // called under mu when the take of event k is noticed
 }
 
@@ -205,6 +206,9 @@ func (s *bnSource) NotificationsSinceHeight(height uint32) ([]BlockNtfn, uint32,
 	s.syncLocked()
 	tip := s.accepted
 	s.lastTip = tip
+	if s.tipByH != nil {
+		s.tipByH[int(height)] = tip
+	}
 	h := int(height)
 	if h == 0 || h == tip {
 		return nil, uint32(tip), nil
@@ -1121,10 +1125,34 @@ func bnFreeRun(id int, seed int64, minEv, maxEv int, profile string) (out bnPath
 		}
 		plans[s] = p
 	}
+	// In half of the runs several subscribers register AT THE SAME MOMENT
+	// (released by the same event), with distinct heights: their
+	// NewSubscription calls are in flight together.
+	if rng.Intn(2) == 0 && nev >= 8 {
+		at := n + rng.Intn(nev/2)
+		first := rng.Intn(2) // with or without the early subscriber
+		for s := first; s < n; s++ {
+			plans[s].StartAfter, plans[s].HMode = at, 4
+		}
+	}
 	out.Info = fmt.Sprintf("seed=%d subs=%d events=%d stopAt=%d burst=%v early=%v slots=%d plans=%+v", seed, n, nev, stopAt, burst, early, slots, plans)
 
 	phaseDone := make(chan struct{})
-	var subMu sync.Mutex
+	// NewSubscription calls overlap freely, except that two calls with the
+	// SAME height are made one after the other, so that the tip the source
+	// reported (which the backlog function learns only by height) can be
+	// attributed to its caller.
+	src.tipByH = map[int]int{}
+	var hMuMu sync.Mutex
+	hMus := map[int]*sync.Mutex{}
+	heightMu := func(h int) *sync.Mutex {
+		hMuMu.Lock()
+		defer hMuMu.Unlock()
+		if hMus[h] == nil {
+			hMus[h] = &sync.Mutex{}
+		}
+		return hMus[h]
+	}
 	var wgRun, wgCancel sync.WaitGroup
 	const deadline = 120 * time.Second
 
@@ -1192,13 +1220,9 @@ func bnFreeRun(id int, seed int64, minEv, maxEv int, profile string) (out bnPath
 			srng := rand.New(rand.NewSource(p.Seed))
 			src.waitFor(deadline, accepted(p.StartAfter))
 
-			// NewSubscription calls are made one at a time so that the tip
-			// the source reports can be attributed to the caller.
-			subMu.Lock()
 			src.mu.Lock()
 			src.syncLocked()
 			tip := src.accepted
-			src.lastTip = -1
 			src.mu.Unlock()
 			h := 0
 			switch p.HMode {
@@ -1208,6 +1232,19 @@ func bnFreeRun(id int, seed int64, minEv, maxEv int, profile string) (out bnPath
 				h = tip
 			case 3:
 				h = tip + 1 + srng.Intn(3)
+			case 4:
+				h = max(1, p.StartAfter-s)
+			}
+			subMu := heightMu(h)
+			subMu.Lock()
+			src.mu.Lock()
+			delete(src.tipByH, h)
+			src.mu.Unlock()
+			tipOf := func() int {
+				if k, ok := src.tipByH[h]; ok {
+					return k
+				}
+				return -1
 			}
 			var sub *Subscription
 			var err error
@@ -1224,14 +1261,14 @@ func bnFreeRun(id int, seed int64, minEv, maxEv int, profile string) (out bnPath
 			}
 			f.log("", func() bnAct {
 				if res == "ok" {
-					f.cst[s], f.subs[s], f.regH[s], f.regK[s] = 1, sub, h, src.lastTip
+					f.cst[s], f.subs[s], f.regH[s], f.regK[s] = 1, sub, h, tipOf()
 					if f.stopRet {
 						f.ended[s] = true
 					}
 				} else {
 					f.cst[s] = 3
 				}
-				return bnAct{Op: "Subscribe", S: s + 1, H: h, K: src.lastTip, Res: res}
+				return bnAct{Op: "Subscribe", S: s + 1, H: h, K: tipOf(), Res: res}
 			})
 			subMu.Unlock()
 			if res != "ok" {
